@@ -205,7 +205,7 @@ prop("C11",
      "the UDP routine only (UDPZ). Does not decide the arithmetic identity itself.", ["dpkt exposes ip.p / ip.nxt / tcp.sum / udp.sum as parsed"], controls=["c11-fold-off-by-one"])
 
 prop("C12",
-     lambda tier: [GI_for("C12"), WSI_for("C12"), LDI_for("C12"), pcapng.rule_E3, pcapng.rule_T9_pcapng, tcp.rule_full_scans],
+     lambda tier: [GI_for("C12"), WSI_for("C12"), LDI_for("C12"), output.rule_D2, pcapng.rule_E3, pcapng.rule_T9_pcapng, tcp.rule_full_scans],
      "Decides: every byte-order-dependent choice in the pcapng reader is `XLE if le else X` / '<'+f / '>'+f with the same X / f, the flag is set from the "
      "matching magic, block type ↔ block class agreement (E3); if_tsresol decoding constants, identical EPB/PB timestamp expression, unconditional block "
      "consumption before type dispatch (unknown blocks skipped), reader selection by -l (T9p). Does not decide dpkt's own classes.",
